@@ -51,6 +51,8 @@ PressureClauses(o) ==
   \cup (IF Advance(F[o.a], o.FTot, o.dF) /\ Close(o.STot - S[o.a], o.dS, 2)
            /\ Advance(G[o.a], o.GTot, o.dG) THEN {} ELSE {"PressureLedgerAdvance"})
   \cup (IF Close(o.PTot, o.FTot + o.STot + o.GTot, TolP) THEN {} ELSE {"TotalIsSumOfPartsAndRegions"})
+  \* the step was advanced by the region whose bounds contain it
+  \cup (IF o.inreg = 1 THEN {} ELSE {"ActiveRegionContainsTheStep"})
 PressureUpdate(o) ==
   /\ F' = [F EXCEPT ![o.a] = o.FTot] /\ S' = [S EXCEPT ![o.a] = o.STot]
   /\ G' = [G EXCEPT ![o.a] = o.GTot]
